@@ -31,8 +31,10 @@ func verifAddrN(b byte) types.Address {
 // verifBlockUniverse: candidates P (a validator, online) and Q (online) with
 // base-coin stakes of symbolic size; run on the testnet constants so that the
 // unbond window (531 blocks) can be walked by the executor.
-func verifBlockUniverse() *verifBlockU {
-	bc := verifChain()
+func verifBlockUniverse() *verifBlockU { return verifBlockUniverseOn(verifChain()) }
+
+// verifBlockUniverseOn populates the state of a prepared chain.
+func verifBlockUniverseOn(bc *Blockchain) *verifBlockU {
 	types.CurrentChainID = types.ChainTestnet
 	u := &verifBlockU{bc: bc, P: verifPubkey(1), Q: verifPubkey(2), ownerP: verifAddrN(9), D1: verifAddrN(1), D2: verifAddrN(2)}
 	u.addrs = []types.Address{u.ownerP, u.D1, u.D2, {}}
